@@ -3,6 +3,15 @@ import IsoVerif.Driver.Gen
 import IsoVerif.Driver.C19
 import IsoVerif.Driver.C17
 import IsoVerif.Driver.C18
+import IsoVerif.Driver.C13
+import IsoVerif.Driver.C14
+import IsoVerif.Driver.C15
+import IsoVerif.Driver.C02
+import IsoVerif.Driver.C20
+import IsoVerif.Driver.C06
+import IsoVerif.Driver.C05
+import IsoVerif.Driver.C10
+import IsoVerif.Driver.C09
 
 namespace IsoVerif.Driver
 
@@ -14,5 +23,14 @@ def allOps : List (String × Handler) :=
   ++ prefixOps "C19" C19.ops
   ++ prefixOps "C17" C17.ops
   ++ prefixOps "C18" C18.ops
+  ++ prefixOps "C13" C13.ops
+  ++ prefixOps "C14" C14.ops
+  ++ prefixOps "C15" C15.ops
+  ++ prefixOps "C02" C02.ops
+  ++ prefixOps "C20" C20.ops
+  ++ prefixOps "C06" C06.ops
+  ++ prefixOps "C05" C05.ops
+  ++ prefixOps "C10" C10.ops
+  ++ prefixOps "C09" C09.ops
 
 end IsoVerif.Driver
